@@ -6,6 +6,7 @@ import (
 	"context"
 	"fmt"
 	"sync"
+	"time"
 
 	"github.com/hashicorp/memberlist"
 
@@ -361,4 +362,72 @@ func HarnessC06_Queue() {
 	_ = nd.kv.NamedService.AwaitTerminated(context.Background())
 	vfQuiesce()
 	vfCover("c06-queue-done")
+}
+
+// HarnessC06_Notify: delayed (coalesced) watcher notifications. Two updates of
+// one key, the second one racing with the periodic flush of pending
+// notifications (one preemption before any mutex acquisition); after one more
+// flush every watcher has been called with the latest value.
+func init() { vfRegisterBubble("HarnessC06_Notify", HarnessC06_Notify) }
+
+func HarnessC06_Notify() {
+	vfSetNow(vfEpoch + 100)
+	wc := &vfWireCodec{}
+	nd := vfClusterNode(2, wc)
+	nd.kv.cfg.NotifyInterval = time.Second // notifications are accumulated and flushed by a ticker
+	ctx, cancel := context.WithCancel(context.Background())
+	put := func(name string, ts int64) error {
+		return nd.kv.CAS(context.Background(), "k", wc, func(in interface{}) (interface{}, bool, error) {
+			cur := &vfLWW{m: map[string]vfEntry{}}
+			if in != nil {
+				cur = in.(*vfLWW)
+			}
+			cur.m[name] = vfEntry{ts: ts}
+			return cur, false, nil
+		})
+	}
+	ts1, ts2 := vfI64("ts1"), vfI64("ts2")
+	vfAssume(vfAnd(vfAnd(ts1 >= 1, ts1 <= 1000), vfAnd(ts2 >= 1, ts2 <= 1000)))
+	second := []string{"a", "b"}[vfChoice("second_name", 2)]
+	reacts := vfChoice("watcher_reacts", 2) == 1
+	// a watcher that (optionally) reacts to the first notification with an
+	// update of its own, as ring lifecyclers do
+	go nd.kv.WatchKey(ctx, "k", wc, func(v interface{}) bool {
+		nd.mu.Lock()
+		nd.calls++
+		first := nd.calls == 1
+		nd.seen, _ = v.(*vfLWW)
+		nd.mu.Unlock()
+		if first && reacts {
+			_ = put(second, ts2)
+		}
+		return true
+	})
+	vfQuiesce()
+	vfAssert(put("a", ts1) == nil, "C06 first update is acknowledged")
+	// the ticker fires; if the watcher does not react, a second update arrives
+	// from elsewhere at the same time
+	go nd.kv.sendKeyNotifications()
+	if !reacts {
+		go func() { _ = put(second, ts2) }()
+	}
+	vfQuiesce()
+	// the next ticks
+	nd.kv.sendKeyNotifications()
+	vfQuiesce()
+	nd.kv.sendKeyNotifications()
+	vfQuiesce()
+	out, err := nd.kv.Get("k", wc)
+	vfAssert(err == nil, "C06 get succeeds")
+	view, _ := out.(*vfLWW)
+	nd.mu.Lock()
+	seen, calls := nd.seen, nd.calls
+	nd.mu.Unlock()
+	vfAssert(calls > 0 && vfSameLWW(seen, view), "C06 with delayed notifications every watcher is eventually called with the latest value")
+	cancel()
+	close(nd.kv.shutdown)
+	nd.kv.NamedService.StopAsync()
+	_ = nd.kv.NamedService.AwaitTerminated(context.Background())
+	vfQuiesce()
+	vfCover("c06-notify-done")
 }
